@@ -8,3 +8,7 @@ import Sftp.Props.C15
 import Sftp.Props.C02
 import Sftp.Props.C14
 import Sftp.Props.Known.C02
+import Sftp.Props.C18
+import Sftp.Props.C11
+import Sftp.Props.C03
+import Sftp.Props.C04
